@@ -4,7 +4,9 @@ use crate::UCanonicalGoal;
 use chalk_ir::{interner::Interner, NoSolution};
 use chalk_ir::{Canonical, ConstrainedSubst, Goal, InEnvironment, UCanonical};
 use chalk_ir::{Constraints, Fallible};
-use chalk_solve::{coinductive_goal::IsCoinductive, RustIrDatabase, Solution};
+use chalk_solve::infer::InferenceTable;
+use chalk_solve::solve::truncate;
+use chalk_solve::{coinductive_goal::IsCoinductive, Guidance, RustIrDatabase, Solution};
 use std::fmt;
 
 /// A Solver is the basic context in which you can propose goals for a given
@@ -78,7 +80,27 @@ impl<I: Interner> SolverStuff<UCanonicalGoal<I>, Fallible<Solution<I>>> for &dyn
         minimums: &mut Minimums,
         should_continue: impl std::ops::Fn() -> bool + Clone,
     ) -> Fallible<Solution<I>> {
-        Solver::new(context, self).solve_iteration(goal, minimums, should_continue)
+        let max_size = context.max_size();
+        let solution = Solver::new(context, self).solve_iteration(goal, minimums, should_continue);
+        // The answer of a goal that is part of a cycle is the starting point of
+        // the next iteration. Goals that grow too large are given up on as
+        // ambiguous (see `Fulfill::push_obligation`); do the same for answers:
+        // otherwise an answer that grows with every iteration (e.g. `?0: C` with
+        // `impl<T> C for V<T> where T: C` and `C` coinductive) never reaches a
+        // fixed point.
+        match solution {
+            Ok(Solution::Unique(subst))
+                if truncate::needs_truncation(
+                    self.interner(),
+                    &mut InferenceTable::new(),
+                    max_size,
+                    &subst.value.subst,
+                ) =>
+            {
+                Ok(Solution::Ambig(Guidance::Unknown))
+            }
+            solution => solution,
+        }
     }
 
     fn reached_fixed_point(
